@@ -688,9 +688,11 @@ def S2(ctx, rule="S2"):
         kinds, vsrcs = classify_sent_value(ctx, b, t["args"][1])
         if kinds == {"child"}:
             n_rel += 1
+            ctx.cover(rule + ".release", b.id)
             check_release_send(ctx, rule, b, bb, t, where, key)
         elif kinds == {"all-nodes"}:
             n_pre += 1
+            ctx.cover(rule + ".preload", b.id)
             check_preload_send(ctx, rule, b, bb, t, where, key)
         else:
             ctx.bad(rule, "unknown-ready-send|%s" % key, where,
@@ -698,10 +700,8 @@ def S2(ctx, rule="S2"):
                     "successor whose count reached 0: value comes from %s" % sorted(kinds))
     ctx.counts[rule + ".preload"] = n_pre
     ctx.counts[rule + ".release"] = n_rel
-    if n_pre < 1:
-        ctx.unverifiable(rule, "floor-preload", "-", "no preload send on the READY channel found")
-    if n_rel < 2:
-        ctx.unverifiable(rule, "floor-release", "-", "expected a release send in the queuer and in the stream poll closure, found %d" % n_rel)
+    ctx.entry_floor(rule, rule + ".preload", ('stream', 'fold', 'for_each', 'try_fold', 'try_for_each'), "preload of the READY channel")
+    ctx.entry_floor(rule, rule + ".release", ('stream', 'fold', 'for_each', 'try_fold', 'try_for_each'), "release send on the READY channel")
 
 
 def check_release_send(ctx, rule, b, bb, t, where, key):
@@ -953,6 +953,7 @@ def S3(ctx, rule="S3"):
         key = short(b.id)
         where = m.where(b, sts[0]["bb"], sts[0]["si"])
         n += 1
+        ctx.cover(rule, b.id)
         # (a) each store is `x - 1` of the same element
         for st in sts:
             v = st["value"]
@@ -1030,8 +1031,7 @@ def S3(ctx, rule="S3"):
                   "decrements happen in a `for_each` over `children(done_id)` of the structure paired with the counts, triggered by an id received from DONE",
                   why)
     ctx.counts[rule + ".release_loops"] = n
-    if n < 2:
-        ctx.unverifiable(rule, "floor", "-", "expected 2 release loops writing COUNTS (queuer, stream poll closure), found %d" % n)
+    ctx.entry_floor(rule, rule, ('stream', 'fold', 'for_each', 'try_fold', 'try_for_each'), "release loop decrementing COUNTS")
     # no other mutation of COUNTS: no call receives &mut COUNTS except index_mut
     for b in fb.prod_bodies():
         for bb, t in b.calls():
@@ -1132,6 +1132,7 @@ def S4(ctx, rule="S4"):
             continue
         for (eb, ebb, depth) in effective_sites(ctx, b, bb):
             n_item += 1
+            ctx.cover(rule, eb.id)
             ewhere = m.where(eb, ebb)
             key = short(eb.id)
             uas = user_awaits(ctx, eb)
@@ -1149,8 +1150,7 @@ def S4(ctx, rule="S4"):
     ctx.counts[rule + ".fnref_drop"] = n_drop
     if n_drop < 1:
         ctx.unverifiable(rule, "floor-drop", "-", "FnRef::drop send not found")
-    if n_item < 8:
-        ctx.unverifiable(rule, "floor-item", "-", "expected >= 8 per-item done-send sites, found %d" % n_item)
+    ctx.entry_floor(rule, rule, ('fold', 'for_each', 'try_fold', 'try_for_each'), "done-send site in a per-item body")
 
 
 LOOKUP_FNS = ("std::ops::Index::index", "std::ops::IndexMut::index_mut", "daggy::Dag::<N, E, Ix>::node_weight",
@@ -1193,6 +1193,7 @@ def S5(ctx, rule="S5"):
                             "the function handed to the user callback does not come from a lookup by id: %s" % [fmt_src(s) for s in psrc])
                     continue
                 n += 1
+                ctx.cover(rule, b.id)
                 lk = looked[-1]       # innermost lookup
                 cont, idx = lk[2][0], lk[2][1]
                 idv = node_index_arg(idx) or strip_refs(idx)
@@ -1247,8 +1248,9 @@ def S5(ctx, rule="S5"):
     if m.interruptible:
         S5_interrupt_map(ctx, rule)
     ctx.counts[rule] = n
-    if n < 10:
-        ctx.unverifiable(rule, "floor", "-", "expected >= 10 id-consistency obligations, found %d" % n)
+    ctx.entry_floor(rule, rule, ('fold', 'for_each', 'try_fold', 'try_for_each'), "lookup of the function handed to the user callback")
+    if not m.fnref_sites:
+        ctx.unverifiable(rule, "floor-fnref", "-", "no FnRef construction found")
 
 
 def lookup_container_ok(ctx, csrc, roles):
@@ -1459,8 +1461,10 @@ def S7(ctx, rule="S7"):
                   "result of the %s is unwrapped/expected at %s: panics when the receiver was dropped" % (
                       what, [b.loc(x) for x in pan]))
     ctx.counts[rule] = n
-    if n < 4:
-        ctx.unverifiable(rule, "floor", "-", "expected >= 4 fallible send sites (2 release loops, done send, FnRef::drop), found %d" % n)
+    kinds_seen = {o.key.split("|")[1] for o in ctx.obs if o.rule == rule}
+    for k in ("release-loop", "done", "FnRef::drop"):
+        if k not in kinds_seen:
+            ctx.unverifiable(rule, "floor|%s" % k, "-", "no fallible send site of kind `%s` found" % k)
 
 
 def W3(ctx, rule="W3"):
@@ -1478,6 +1482,7 @@ def W3(ctx, rule="W3"):
         if kinds != {"child"}:
             continue
         n += 1
+        ctx.cover(rule, b.id)
         bad = []
         for sb, de, vals in cond_guards(b, bb):
             e = strip_refs(de)
@@ -1503,5 +1508,4 @@ def W3(ctx, rule="W3"):
         ctx.check(not bad, rule, "release-unconditional|%s" % short(b.id), m.where(b, bb),
                   "the release of a successor depends only on its predecessor count and on the ready-sender being present",
                   "the release of a runnable successor is additionally guarded by %s" % bad)
-    if n < 2:
-        ctx.unverifiable(rule, "floor", "-", "expected 2 release sends, found %d" % n)
+    ctx.entry_floor(rule, rule, ('stream', 'fold', 'for_each', 'try_fold', 'try_for_each'), "release send on the READY channel")
